@@ -2325,6 +2325,7 @@ static void upipe_h265f_end_annexb(struct upipe *upipe, struct upump **upump_p)
             upipe_warn(upipe, "discarding non-sync data");
             upipe_h265f_consume_uref_stream(upipe, upipe_h265f->au_size);
             upipe_h265f->au_size = 0;
+            upipe_h265f->au_nal_units = 0;
         }
         upipe_h265f_sync_acquired(upipe);
         return;
@@ -2375,6 +2376,7 @@ static void upipe_h265f_end_annexb(struct upipe *upipe, struct upump **upump_p)
         upipe_warn(upipe, "discarding non-slice data due to discontinuity");
         upipe_h265f_consume_uref_stream(upipe, upipe_h265f->au_size);
         upipe_h265f->au_size = 0;
+        upipe_h265f->au_nal_units = 0;
         return;
     }
 
